@@ -124,6 +124,7 @@ func (x *c02ctx) r7() {
 		return nil
 	}
 	n := 0
+	nested := 0
 	seen := map[string]int{}
 	ast.Inspect(cfgFn.Decl.Body, func(nd ast.Node) bool {
 		as, ok := nd.(*ast.AssignStmt)
@@ -145,6 +146,14 @@ func (x *c02ctx) r7() {
 		}
 		// A must be an operand of X too: defined from X.child[...] or X being A.anc
 		if ao := ownerOf(a, 0); !(ao != nil && types.ExprString(ao) == xS) && xS != aS+".anc" {
+			if strings.HasPrefix(xS, aS+".anc.anc") {
+				// R02.12: A is an operand of an operand of X. While the rest of the expression is
+				// evaluated the destination may still be read (x = a*b + x): only the expression
+				// that is itself assigned may be computed in the destination.
+				r.Fail("R02.12", "cfg/nested-operand-stored-in-the-destination:"+aS+"<-"+types.ExprString(d), ic.pos(as.Pos()),
+					"cfg makes "+aS+", an operand of the expression being assigned (its grandparent "+xS+" is the assignment), compute its value in the destination's frame slot ("+strings.TrimSpace(types.ExprString(as.Lhs[0])+" = "+types.ExprString(as.Rhs[0]))+"): the other operand is evaluated afterwards and can read the destination, so x = a*b + x adds a*b to itself")
+				nested++
+			}
 			return true
 		}
 		n++
@@ -199,6 +208,9 @@ func (x *c02ctx) r7() {
 	})
 	if n < 5 {
 		r.Errorf("R02.7: only %d direct-store sites found in cfg (5 confirmed by reading)", n)
+	}
+	if nested == 0 {
+		r.Pass("R02.12", "cfg/no-nested-operand-stored-in-a-destination", "", fmt.Sprintf("%d direct-store sites: each is the assigned expression itself, none an operand of it", n))
 	}
 }
 
@@ -753,4 +765,80 @@ func splitExpr(e ast.Expr, op token.Token) []ast.Expr {
 		return append(splitExpr(be.X, op), splitExpr(be.Y, op)...)
 	}
 	return []ast.Expr{unparen(e)}
+}
+
+// r11chain (R02.11, direct-chain clause): anywhere in package interp, a conversion to an
+// unsigned integer type whose operand is itself a conversion of a floating-point expression to
+// a signed integer type (uint64(int64(f))) loses [2^63, 2^64); the reverse chain
+// (int64(uint64(f))) loses the negative values. Type-resolved, so helper lambdas outside the
+// generators are covered too (round-5 seed: a numericConvert fast path).
+func (x *c02ctx) r11chain() {
+	ic, r := x.ic, x.r
+	info := ic.Info
+	class := func(t types.Type) string {
+		if t == nil {
+			return ""
+		}
+		b, ok := t.Underlying().(*types.Basic)
+		if !ok {
+			return ""
+		}
+		switch {
+		case b.Info()&types.IsUnsigned != 0:
+			return "uint"
+		case b.Info()&types.IsInteger != 0:
+			return "int"
+		case b.Info()&types.IsFloat != 0:
+			return "float"
+		}
+		return ""
+	}
+	conv := func(e ast.Expr) (to string, arg ast.Expr, ok bool) {
+		c, isCall := unparen(e).(*ast.CallExpr)
+		if !isCall || len(c.Args) != 1 {
+			return "", nil, false
+		}
+		tv, isType := info.Types[c.Fun]
+		if !isType || !tv.IsType() {
+			return "", nil, false
+		}
+		return class(tv.Type), c.Args[0], true
+	}
+	n, nbad := 0, 0
+	for _, name := range sortedKeys(ic.F) {
+		fi := ic.F[name]
+		if fi.Decl.Body == nil {
+			continue
+		}
+		k := 0
+		ast.Inspect(fi.Decl.Body, func(m ast.Node) bool {
+			e, ok := m.(ast.Expr)
+			if !ok {
+				return true
+			}
+			outer, arg, ok := conv(e)
+			if !ok || (outer != "uint" && outer != "int") {
+				return true
+			}
+			inner, arg2, ok := conv(arg)
+			if !ok || inner == outer || (inner != "int" && inner != "uint") {
+				return true
+			}
+			n++
+			if class(info.TypeOf(arg2)) != "float" {
+				return true
+			}
+			if tv, isConst := info.Types[arg2]; isConst && tv.Value != nil {
+				return true
+			}
+			k++
+			nbad++
+			r.Fail("R02.11", fmt.Sprintf("%s/float-narrowed-through-the-other-integer-class#%d", funcName(fi.Decl), k), ic.pos(e.Pos()),
+				funcName(fi.Decl)+" converts the floating-point value "+types.ExprString(arg2)+" with "+types.ExprString(e)+": going through the "+map[string]string{"int": "signed", "uint": "unsigned"}[inner]+" type first loses "+map[string]string{"int": "the values in [2^63, 2^64) (uint64(float64(1<<63)) becomes 1<<63 for every such value)", "uint": "the negative values"}[inner])
+			return true
+		})
+	}
+	if nbad == 0 {
+		r.Pass("R02.11", "package/no-float-narrowed-through-the-other-integer-class", "", fmt.Sprintf("%d signed/unsigned conversion chains in package interp, none applied to a floating-point operand", n))
+	}
 }
